@@ -702,3 +702,12 @@ pub fn tokenize(
 ) -> impl Iterator<Item = Result<(Token<'_>, Span), Error>> {
     whitespace_filter(basic_tokenize(input, delimiters))
 }
+
+/// Verification hook: the lexer output before the whitespace filter.
+#[cfg(tera_verif)]
+pub fn verif_basic_tokenize(
+    input: &str,
+    delimiters: Delimiters,
+) -> impl Iterator<Item = Result<(Token<'_>, Span), Error>> {
+    basic_tokenize(input, delimiters)
+}
